@@ -39,6 +39,25 @@ CONDS = ['x == @K', 'x > @K', 'n > @K', 'b', 'len(xs) > @K', 'not b and x < @K']
 FEATURES = gen.ALL_FEATURES - {'undef', 'try', 'raise', 'lambda', 'compr'}
 
 EXTRA = [
+    ('err:raised_in_nested_functions', '''def f(x, n, b, xs):
+  table = {0: 1, 1: 2}
+  def scale(p):
+    factor = table[p]
+    return factor * 2
+  def outer_helper(p):
+    def inner_helper(q):
+      if q > x:
+        raise ValueError('bad value')
+      return q
+    r = inner_helper(p)
+    return r
+  total = 0
+  for i in range(n):
+    if b:
+      total = total + scale(i)
+    total = total + outer_helper(i)
+  return total
+'''),
     ('er:callee_chain', '''def leaf(p, q):
   r = p - q
   if r == 0:
